@@ -1462,3 +1462,167 @@ def gen_encodedb(seed, n, start_id=0):
         lines += ["avail", "miterate", "lhash", "dump"]
         out.append((hid, lines))
     return out
+
+
+# ---------------------------------------------------------------------------------------------
+# C03, verifier tie: the proofs the implementation produced in a first pass (with the root they were
+# produced against) are fed, genuine and mutated, to the real ics23 verifier (harness `vex` / `vnon`)
+# and to the Lean model of that verifier (about which soundness is proved); verdicts must agree.
+
+import re as _re
+import zlib
+
+_EXIST = _re.compile(r"E\((\S+) (\S+) (\S+) \[([^\]]*)\]\)")
+
+
+def _parse_exist(txt):
+    m = _EXIST.fullmatch(txt)
+    if not m:
+        return None
+    ops = [tuple(o.split(":")) for o in m.group(4).split()] if m.group(4) else []
+    return {"k": m.group(1), "v": m.group(2), "lp": m.group(3), "ops": ops}
+
+
+def _parse_proof(txt):
+    """impl text of a proof query -> ('exist', E) | ('nonexist', key, L, R) | None"""
+    if txt.startswith("exist "):
+        e = _parse_exist(txt[6:])
+        return ("exist", e) if e else None
+    if txt.startswith("nonexist "):
+        m = _re.fullmatch(r"nonexist (\S+) L=(nil|E\(.*?\]\)) R=(nil|E\(.*?\]\))", txt)
+        if not m:
+            return None
+        return ("nonexist", m.group(1), None if m.group(2) == "nil" else _parse_exist(m.group(2)),
+                None if m.group(3) == "nil" else _parse_exist(m.group(3)))
+    return None
+
+
+def _fmt_exist(e):
+    if e is None:
+        return "-"
+    return "%s %s %s %d%s" % (e["k"], e["v"], e["lp"], len(e["ops"]), "".join(" %s %s" % o for o in e["ops"]))
+
+
+def _hx(b):
+    return "x" + b.hex()
+
+
+def _unhx(s):
+    return bytes.fromhex(s[1:])
+
+
+def _mutate_exist(r, e):
+    """one structural mutation of an existence proof (never in place)"""
+    e = {"k": e["k"], "v": e["v"], "lp": e["lp"], "ops": list(e["ops"])}
+    ops = e["ops"]
+    c = r.randrange(14)
+    if c == 0 and ops:
+        ops.pop()                                   # drop the op next to the root
+    elif c == 1 and ops:
+        ops.pop(0)                                  # drop the op next to the leaf
+    elif c == 2 and ops:
+        i = r.randrange(len(ops))
+        ops.insert(i, ops[i])                       # duplicate an op
+    elif c == 3 and ops:
+        i = r.randrange(len(ops))
+        p = _unhx(ops[i][0])
+        ops[i] = (_hx(p[:-1]), ops[i][1])           # prefix one byte short
+    elif c == 4 and ops:
+        i = r.randrange(len(ops))
+        ops[i] = (ops[i][0] + "20", ops[i][1])      # prefix one byte long
+    elif c == 5 and ops:
+        i = r.randrange(len(ops))
+        sfx = _unhx(ops[i][1])
+        ops[i] = (ops[i][0], _hx(r.choice([b"", sfx[:-1] if sfx else b"\x20" + bytes(32), sfx + b"\x00", b"\x20" + bytes(32)])))
+    elif c == 6 and ops:
+        i = r.randrange(len(ops))
+        p = bytearray(_unhx(ops[i][0]))
+        j = r.randrange(len(p))
+        p[j] ^= 1 << r.randrange(8)
+        ops[i] = (_hx(bytes(p)), ops[i][1])         # one bit of the prefix (height / size / version / hash)
+    elif c == 7 and ops:
+        i = r.randrange(len(ops))
+        p, sfx = _unhx(ops[i][0]), _unhx(ops[i][1])
+        # move the sibling hash to the other side: a left step presented as a right step and vice versa
+        if sfx:
+            ops[i] = (_hx(p + sfx[1:] + b"\x20") if len(sfx) == 33 else ops[i][0], "x")
+        elif len(p) > 34:
+            ops[i] = (_hx(p[:-34] + b"\x20"), _hx(p[-34:-1]))
+    elif c == 8:
+        e["lp"] = r.choice(["x00", "x0002", "x000202ff", "x010202", "x", "x00020280", "x000203"])
+    elif c == 9:
+        e["v"] = e["v"] + "00"
+    elif c == 10:
+        e["k"] = e["k"] + "00"
+    elif c == 11:
+        e["ops"] = []
+    elif c == 12 and len(ops) >= 2:
+        i = r.randrange(len(ops) - 1)
+        ops[i], ops[i + 1] = ops[i + 1], ops[i]
+    elif c == 13 and ops:
+        i = r.randrange(len(ops))
+        # a huge height varint: keeps parsing, pushes the prefix length out of the window
+        ops[i] = ("x" + "ffffffffffffffff7f"[:2 * r.randint(1, 9)] + ops[i][0][1:], ops[i][1])
+    return e
+
+
+def gen_icsverify(seed, results, per_hist=40):
+    out = []
+    for h in results:
+        r = random.Random((seed * 7368787 + zlib.crc32(h["id"].encode())) & 0xFFFFFFFFFFFF)
+        items = []
+        for line, impl in zip(h["lines"], h["impl"]):
+            if not impl or " ## " not in impl or "proof" not in line:
+                continue
+            txt, orc = impl.split(" ## ", 1)
+            m = _re.search(r"root=(\S+)", orc)
+            pr = _parse_proof(txt)
+            if m and pr:
+                items.append((m.group(1), pr))
+        if not items:
+            continue
+        pool = {}
+        for root, pr in items:
+            es = [pr[1]] if pr[0] == "exist" else [e for e in pr[2:] if e]
+            pool.setdefault(root, []).extend(es)
+        roots = sorted(pool)
+        lines = ["new v" + h["id"]]
+        r.shuffle(items)
+        for root, pr in items[:per_hist]:
+            if pr[0] == "exist":
+                e = pr[1]
+                lines.append("vex %s %s %s %s" % (root, e["k"], e["v"], _fmt_exist(e)))
+                lines.append("vex %s %s %s %s" % (r.choice(roots), e["k"], e["v"], _fmt_exist(e)))
+                lines.append("vex %s %s %s00 %s" % (root, e["k"], e["v"], _fmt_exist(e)))
+                for _ in range(3):
+                    m2 = _mutate_exist(r, e)
+                    lines.append("vex %s %s %s %s" % (root, m2["k"], m2["v"], _fmt_exist(m2)))
+                # the same proof presented as an absence proof of its own key / of a neighbouring key
+                lines.append("vnon %s %s L %s R -" % (root, e["k"] + "00", _fmt_exist(e)))
+                lines.append("vnon %s %s L - R %s" % (root, e["k"][:-2] if len(e["k"]) > 3 else "x", _fmt_exist(e)))
+            else:
+                _, key, L, R = pr
+                lines.append("vnon %s %s L %s R %s" % (root, key, _fmt_exist(L), _fmt_exist(R)))
+                lines.append("vnon %s %s L %s R %s" % (r.choice(roots), key, _fmt_exist(L), _fmt_exist(R)))
+                others = pool[root]
+                cands = [key] + [e["k"] for e in (L, R) if e] + [e["k"] + "00" for e in (L, R) if e] + \
+                        [key + "00", key[:-2] if len(key) > 3 else "x", "x", "xffffffff"]
+                for k2 in r.sample(cands, min(3, len(cands))):
+                    lines.append("vnon %s %s L %s R %s" % (root, k2, _fmt_exist(L), _fmt_exist(R)))
+                lines.append("vnon %s %s L %s R %s" % (root, key, _fmt_exist(R), _fmt_exist(L)))      # swapped
+                lines.append("vnon %s %s L %s R -" % (root, key, _fmt_exist(L)))                     # one side dropped
+                lines.append("vnon %s %s L - R %s" % (root, key, _fmt_exist(R)))
+                lines.append("vnon %s %s L - R -" % (root, key))
+                for _ in range(3):                                                                   # another (non-adjacent?) leaf
+                    o = r.choice(others)
+                    if r.random() < 0.5:
+                        lines.append("vnon %s %s L %s R %s" % (root, key, _fmt_exist(o), _fmt_exist(R)))
+                    else:
+                        lines.append("vnon %s %s L %s R %s" % (root, key, _fmt_exist(L), _fmt_exist(o)))
+                for _ in range(3):
+                    if L and (not R or r.random() < 0.5):
+                        lines.append("vnon %s %s L %s R %s" % (root, key, _fmt_exist(_mutate_exist(r, L)), _fmt_exist(R)))
+                    elif R:
+                        lines.append("vnon %s %s L %s R %s" % (root, key, _fmt_exist(L), _fmt_exist(_mutate_exist(r, R))))
+        out.append(("v" + h["id"], lines))
+    return out
